@@ -436,3 +436,39 @@ MAP_MODE_REAL.replay = None
 MAP_MODE_REAL.no_callee = True
 MAP_MODE_REAL.label = "whole real mode"
 CONTRACTS.append(MAP_MODE_REAL)
+
+
+# ---------------------------------------------------------------------------------------------- Circuit.barrier (C01 / C08)
+def _modes_list(k):
+    def build(ex, name):
+        import z3
+        from vf.pyvc.values import CList
+        return ex.alloc(CList(tuple(z3.Int(f"{name}_{i}") for i in range(k))), name)
+    build.label = f"list of {k} mode(s)"
+    return build
+
+
+def _barrier(k):
+    nvis = "(self.__n_modes - len(self.__internal_modes))"
+    mapped_ok = " and ".join([f"suffix(self.__circuit_spec)[0].modes[{i}] == self._map_mode(old(modes[{i}]))" for i in range(k)] or ["True"])
+    out_of_range = " or ".join([f"self._map_mode(modes[{i}]) >= self.__n_modes" for i in range(k)] or ["False"])
+    c = Contract(
+        target=f"{CIRC}:Circuit.barrier",
+        types={"self": CIRCUIT, "modes": _modes_list(k)},
+        requires=[WF_INTERNAL, WF_RANGE] + [f"modes[{i}] >= 0" for i in range(k)],
+        modifies=["self.__circuit_spec"],
+        ensures={
+            # one Barrier is recorded, on the full modes that the user-visible modes map to, in the given order
+            "barrier_recorded": f"len(suffix(self.__circuit_spec)) == 1 and isinstance(suffix(self.__circuit_spec)[0], Barrier) and len(suffix(self.__circuit_spec)[0].modes) == {k}",
+            "on_mapped_modes": mapped_ok,
+        },
+        raises={"ModeRangeError": out_of_range},
+        exc_frame=True,
+        props=["C01", "C08"],
+    )
+    c.label = f"{k} mode(s)"
+    return c
+
+
+BARRIERS = [_barrier(0), _barrier(1), _barrier(2)]
+CONTRACTS += BARRIERS
